@@ -17,6 +17,7 @@ package nsqd
 //@   props C12
 //@   arith bv64
 //@   onreturn result1 == nil ==> lastIssued := result0
+//@   modifies f.sequence, f.lastTimestamp, f.lastID, lastIssued, lastNow
 //@   requires f != nil
 //@   ensures[fresh] result1 == nil ==> result0 == atunlock(f.lastID) && result0 > atlock(f.lastID)
 //@   ensures[no-reuse-on-error] result1 != nil ==> atunlock(f.lastID) == atlock(f.lastID) && result0 == 0
@@ -64,3 +65,5 @@ package nsqd
 //@   props C12
 //@   requires t != nil && t.idFactory != nil && t.nsqd != nil
 //@   ensures[issued] isHexOf(result, lastIssued)
+//@   ensures[hexchars] forall k int :: {result[k]} 0 <= k && k < 16 ==> (48 <= result[k] && result[k] <= 57) || (97 <= result[k] && result[k] <= 102)
+//@   modifies guidFactory.sequence, guidFactory.lastTimestamp, guidFactory.lastID, lastIssued, lastNow
